@@ -21,7 +21,7 @@ from rules.util import P, strip, canon, show_b
 from symex import show, walk
 
 EXPLANATION = __doc__
-TRUSTED = ["rustc / extractor", "md5, hmac, sha1 crates; RC4 (C09)", "slice::chunks(n) yields consecutive n-byte chunks in order (printing order)", "selection from a shrinking table (index = seed % remaining, gap closed) never repeats a cell"]
+TRUSTED = ["rustc / extractor", "md5, hmac, sha1 crates; RC4 (C09)", "slice::chunks(n) yields consecutive n-byte chunks in order (printing order)", "selection from a shrinking table (index = seed % remaining, gap closed) never repeats a cell", "digest::Mac::verify_slice(tag) is Ok exactly when tag has the MAC's output length and equals the finalised MAC in every byte"]
 NOT_DECIDED = ["that drawing index seed % remaining from a table and closing the gap yields distinct cells (paper lemma; the code is decided to BE that algorithm)", "RC4 / HMAC / MD5 internals"]
 FLOORS = {"cell-offset": 2, "printing-order": 1, "round-guard": 3, "transcript": 4, "server-check": 5, "accessor": 3, "distinct": 4}
 MC = "matrix_card::MatrixCard"
@@ -30,6 +30,33 @@ MV = "matrix_card::MatrixCardVerifier"
 
 def applicable(feats):
     return "matrix-card" in feats
+
+
+def _only_dead_none_exits(se, lp):
+    """every exit of the rounds loop other than its own end is the `None` arm of a match on
+    `verifier.get_matrix_coordinates(round)` with round the loop's own counter.  That arm is dead:
+    the rounds are 0..challenge_count (rule rounds), the verifier was built with the card's own
+    width / height and that count (verifier-args, coordinates-args), its list has challenge_count
+    entries (length), every entry is a cell drawn from the identity table over width * height
+    cells (identity-table, draw-without-replacement: an entry c < width * height), and the lookup
+    refuses only round >= challenge_count or c / width >= height (bound, decode) - each a rule of
+    this property that reports on its own when it stops holding."""
+    body = se.body
+    extra = util.loop_exits(body, lp["next_bb"]) - {(lp["switch_bb"], lp["exit_bb"])}
+    if not extra:
+        return False
+    for b, s_ in extra:
+        sw = se.term_info.get(b, {})
+        if sw.get("k") != "switch":
+            return False
+        d = strip(sw["discr"])
+        if not (d[0] == "discr" and util.is_call(strip(d[1]), MV + "::get_matrix_coordinates") and strip(strip(d[1])[2][1]) == strip(lp["elem"])):
+            return False
+        tg = dict(sw["targets"])
+        none_edge = tg[0] if 0 in tg else (sw["otherwise"] if set(tg) == {1} else None)
+        if none_edge != s_ or tg.get(1) == s_:
+            return False
+    return True
 
 
 def comm(e):
@@ -137,6 +164,18 @@ def check(ctx, rep):
         if good:
             o = next(iter(origins))
             good = util.is_call(o, "std::vec::from_elem") and arith.norm(o[2][1], {("param", 3): "cc"}) == S("cc")
+        if not good:
+            # an empty list and one unconditional `push` in each of the rounds `0..challenge_count`
+            # of a loop that has no other exit: challenge_count entries when the loop is done
+            from rules import algos
+            for head, (elem, src, lp) in algos.for_info(ctx, gse).items():
+                if not (src is not None and src[0] == "agg" and src[2] == "std::ops::Range" and algos.N(src[4][0], {}) == algos.I(0) and algos.N(src[4][1], {}) == ("param", 3) and lp["only_exit"]):
+                    continue
+                for key, (init, step) in algos.loop_state(gse, head).items():
+                    ph = algos.phi_of(gse, head, key)
+                    i0 = strip(init)
+                    if util.is_call(i0) and i0[1] in algos.EMPTY_VEC and algos.pushed_per_round(step, ph) is not None and strip(gse.ret) == ph:
+                        good = True
     rep.check(good, "round-guard", "matrix_card::generate_coordinates", "length", "the coordinate list has exactly challenge_count entries", "the coordinate list is not created with challenge_count entries (or is resized)")
     # ---------------- (b) round guard
     fn = MV + "::get_matrix_coordinates"
@@ -333,7 +372,7 @@ def check(ctx, rep):
         if ic is None:
             continue
         src = strip(ic[2][0])
-        if not lp["only_exit"]:
+        if not lp["only_exit"] and not (src[0] == "agg" and src[2] == "std::ops::Range" and _only_dead_none_exits(se, lp)):
             continue        # a loop that can be left early does not visit every round / every digit
         if src[0] == "agg" and src[2] == "std::ops::Range":
             if src[4][0][:2] == ("int", 0) and strip(src[4][1]) == ("param", 2):
@@ -359,6 +398,9 @@ def check(ctx, rep):
             for t in se.term_info.values():
                 if t.get("k") == "call" and t["name"] in util.UNWRAP and strip(t["args"][0]) in (strip(gm[0]["term"]), strip(gm[0].get("ret") or gm[0]["term"])):
                     un = strip(t["term"])
+            if un is None and not outer["only_exit"]:
+                # `let Some((x, y)) = .. else { return .. }`: the payload of the Some arm
+                un = ("field", ("downcast", strip(gm[0]["term"]), 1), 0)
             xy_ok = un is not None and a[0] == ("param", 1) and a[1] == ("field", un, 0) and a[2] == ("field", un, 1)
             ev = [i for i in se.term_info.values() if i.get("k") == "call" and i["name"] == MV + "::enter_value"]
             dig_ok = len(ev) == 1 and strip(ev[0]["args"][1]) == strip(lp["elem"])
@@ -451,7 +493,36 @@ def check(ctx, rep):
         c = cmps[0]
         ok, why = util.whole_value_type(fb, c["self_ty"])
         ops = {strip(x) for x in c["args"]}
-        good = ok and c["self_ty"].k == "array" and c["self_ty"].len == 20 and ops == {strip(ip[0]["term"]), ("param", 5)} and strip(se.ret) == strip(c["term"]) and c["op"] == "eq"
+        r0 = strip(se.ret)
+        if r0[0] == "phi" and outer is not None and not outer["only_exit"]:
+            # the value returned from the (dead, see _only_dead_none_exits) early exits aside: what
+            # the function returns when the rounds are done
+            dead_from = {s_ for b_, s_ in util.loop_exits(body, outer["next_bb"]) if (b_, s_) != (outer["switch_bb"], outer["exit_bb"])}
+            idom_r = cfg.dominators(body)
+            live = [v_ for p_, v_ in se.phi_inputs.get((r0[2], r0[3]), {}).items() if not any(cfg.dominates(idom_r, d_, p_) for d_ in dead_from)]
+            if len(live) == 1:
+                r0 = strip(live[0])
+        good = ok and c["self_ty"].k == "array" and c["self_ty"].len == 20 and ops == {strip(ip[0]["term"]), ("param", 5)} and r0 == strip(c["term"]) and c["op"] == "eq"
+    vs = [i for i in se.term_info.values() if i.get("k") == "call" and i["name"] == "<T as digest::Mac>::verify_slice"]
+    if not good and not ip and not cmps and len(vs) == 1 and len(news) == 1:
+        # `verifier.hmac.verify_slice(client_proof).is_ok()`: the digest crate's own comparison of
+        # the finalised tag with a slice - Ok exactly when the slice has the tag's length and every
+        # byte agrees (here: all 20 bytes of the `&[u8; 20]` parameter, HMAC-SHA1's output size);
+        # the MAC is the verifier's, as `into_proof` would have finalised it
+        def unref(x):
+            x = strip(x)
+            while x[0] in ("ref", "refv") or (x[0] == "deref" and strip(x[1])[0] in ("ref", "refv", "param")):
+                x = strip(x[1])
+            return x
+        a0, a1 = strip(vs[0]["args"][0]), unref(vs[0]["args"][1])
+        fs_ = fb.adt_fields(MV) or []
+        hk = [k_ for k_, f_ in enumerate(fs_) if fb.ty(f_["ty"]).s == "digest::core_api::CoreWrapper<hmac::HmacCore<digest::core_api::CoreWrapper<sha1::Sha1Core>>>"]
+        pty = body.local_ty(5)
+        p20 = pty is not None and pty.k == "ref" and pty.to.k == "array" and pty.to.len == 20
+        base = strip(a0[1]) if a0[0] == "field" else None
+        on_v = base is not None and len(hk) == 1 and a0[2] == hk[0] and ((base[0] == "phi" and base[3] == news[0]["dest"]) or base == strip(news[0]["term"]))
+        r_ = strip(se.ret)
+        good = p20 and on_v and a1 == ("param", 5) and util.is_call(r_, "std::result::Result::<T, E>::is_ok") and unref(r_[2][0]) == strip(vs[0]["term"])
     rep.check(good, "server-check", fn, "result", "result = (computed 20-byte proof == presented proof)", "the result is not the whole-array equality of the computed and the presented proof", body.loc())
     rep.check(True, "server-check", fn, "present", "server-side check analysed", "")
 
